@@ -6,8 +6,32 @@ package rux
 import (
 	"encoding/json"
 	"encoding/xml"
+	"io"
 	"strings"
 )
+
+// verifDataEOFReader delivers its data in chunks and returns io.EOF together
+// with the last chunk.
+type verifDataEOFReader struct {
+	data  []byte
+	chunk int
+}
+
+func (r *verifDataEOFReader) Read(p []byte) (int, error) {
+	n := r.chunk
+	if n > len(r.data) {
+		n = len(r.data)
+	}
+	if n > len(p) {
+		n = len(p)
+	}
+	copy(p, r.data[:n])
+	r.data = r.data[n:]
+	if len(r.data) == 0 {
+		return n, io.EOF
+	}
+	return n, nil
+}
 
 type verifC19Obj struct {
 	XMLName xml.Name `xml:"p" json:"-"`
@@ -15,10 +39,10 @@ type verifC19Obj struct {
 }
 
 func verifHarness_C19_helpers() {
-	kind := verifChoice("helper", 11)
+	kind := verifChoice("helper", 12)
 	status := verifInt("status")
 	verifAssume(verifAnd(status >= 100, status <= 599))
-	n := verifLen("payload_len", 0, 3)
+	n := verifLen("payload_len", 0, verifParam("P"))
 	payload := verifString("payload", n)
 	var obj any = verifC19Obj{N: "v"}
 	unencodable := kind >= 5 && kind <= 7 && verifChoice("unencodable", 2) == 1
@@ -54,6 +78,13 @@ func verifHarness_C19_helpers() {
 			c.Redirect("/to", status)
 		case 10:
 			c.HTTPError(payload, status)
+		case 11:
+			// a reader that hands out its last bytes together with io.EOF (as io.Reader allows), or separately
+			if verifChoice("readerStyle", 2) == 1 {
+				c.Stream(status, "text/csv", &verifDataEOFReader{data: []byte(payload), chunk: 2})
+			} else {
+				c.Stream(status, "text/csv", &verifPlainReader{data: []byte(payload)})
+			}
 		}
 		nErrors = len(c.Errors)
 	})
@@ -82,6 +113,8 @@ func verifHarness_C19_helpers() {
 		verifAssert(rec.hdr.Get("Location") == "/to", "Redirect sets the Location header")
 	case 10:
 		verifAssert(body == payload+"\n", "HTTPError writes the message")
+	case 11:
+		verifAssert(ct == "text/csv" && body == payload && nErrors == 0, "Stream: the given content type and every byte the reader delivered")
 	case 5, 6, 7:
 		docs := map[int]string{5: "application/json; charset=utf-8", 6: "application/javascript; charset=utf-8", 7: "application/xml; charset=utf-8"}
 		verifAssert(ct == docs[kind], "encoding helpers set their documented Content-Type")
